@@ -153,13 +153,22 @@ class Arr:
     def sym_len(self, it):
         if self.mask is True:
             return SV(self.space.n)
-        return SV(z3.Int(f"count[{self.space.name},{_key(self.mask)}]"))
+        return SV(_count(it, self.space, self.mask))
 
     def sym_truth(self, it):
         raise PyRaise(ValueError("The truth value of an array with more than one element is ambiguous"))
 
     def sym_set(self, it):
         return Opaque("set(array)")
+
+    def sym_sum(self, it):
+        """sum(mask) of a boolean array: the number of selected rows -- non-negative, positive iff some row is selected"""
+        if not _is_boolish(self.e):
+            raise EngineError("sum of a generic numeric array (needs the sum abstraction)")
+        ex = any_(it, self)
+        c = z3.Int(f"count[{self.space.name},{_key(_zb(self.mask))},{_key(truth_z(self.e))}]")
+        it.ctx.facts.append(z3.And(c >= 0, (c >= 1) == (truth_z(ex) if not isinstance(ex, bool) else z3.BoolVal(ex))))
+        return SV(c)
 
     def sym_contains(self, it, x):
         """x in array: some row holds the value (an uninterpreted membership predicate of the array's content)"""
@@ -351,6 +360,14 @@ def elementwise(it, fn, *args):
     return Arr(base.space, fn(*vals), base.mask)
 
 
+def _count(it, space, mask):
+    """number of rows selected by a mask: non-negative, and at least one if the generic row is selected"""
+    c = z3.Int(f"count[{space.name},{_key(mask)}]")
+    if it is not None:
+        it.ctx.axiom(z3.And(c >= 0, z3.Implies(mask, c >= 1)))
+    return c
+
+
 def any_(it, a):
     """np.any / a.any(): exists a row with truth(e). The generic row is one row: any(m) true on a path where
     it is decided false means: for the generic row m is false (DESIGN 2.3)."""
@@ -514,7 +531,7 @@ class FilteredTable:
         raise EngineError("filtered table access")
 
     def sym_len(self, it):
-        return SV(z3.Int(f"count[{self.table.space.name},{_key(self.mask)}]"))
+        return SV(_count(it, self.table.space, self.mask))
 
     def sym_contains(self, it, col):
         return self.table.has(it, col)
